@@ -23,13 +23,13 @@ private theorem ext_bounds (r t : List Nat) (e : Nat) (he : e = 1 ∨ e = 2) :
   · rw [List.append_assoc, append_lt_append_left_iff]; simp [List.cons_lt_cons_iff]
   · rw [List.append_assoc, append_lt_append_left_iff]; simp [List.cons_lt_cons_iff]
 
-/-- For two well-formed values with overlapping intervals: either `IsSubset(new, old)` holds and new's interval lies inside
+/-- For two non-empty values with overlapping intervals: either `IsSubset(new, old)` holds and new's interval lies inside
 old's, or it does not hold, `IsSubset(old, new)` holds and old's interval lies inside new's. -/
-theorem subset_spec {n o : Bytes} (hn : Valid n) (ho : Valid o) (hov : lo o < hi n ∧ lo n < hi o) :
+theorem subset_spec {n o : Bytes} (hn : n ≠ []) (ho : o ≠ []) (hov : lo o < hi n ∧ lo n < hi o) :
     (isSubset n o = true ∧ ¬ lo n < lo o ∧ ¬ hi o < hi n) ∨
     (isSubset n o = false ∧ isSubset o n = true ∧ ¬ lo o < lo n ∧ ¬ hi n < hi o) := by
-  have ln := length_eq_root n hn.ne_nil
-  have lo' := length_eq_root o ho.ne_nil
+  have ln := length_eq_root n hn
+  have lo' := length_eq_root o ho
   have kn := rkey_length (root n)
   have ko := rkey_length (root o)
   have hRn := rkey_rankList (root n)
